@@ -111,9 +111,9 @@ class Multiply(SameArrayShapeMixin, Command):
         arrays = [c.result for c in kwargs["InFieldNames"]]
         self.validate_array_shapes(arrays, lineno=self.lineno)
 
-        result = numpy.copy(arrays[0])
+        result = arrays[0].copy()
         for arr in arrays[1:]:
-            result *= arr
+            result = result * arr
 
         return result
 
